@@ -529,7 +529,7 @@ func staleRenewal(L time.Duration, n int32) (sig, what string, stall time.Durati
 func TestCheck(t *testing.T) {
 	run := report.New(prop, "fault_enumeration")
 	defer run.Finish(t)
-	run.Rule("controlled: scenarios of 2-5 workers (distinct Lockers of 1-3 providers and goroutines sharing a Locker) running programs over {Lock, TryLock, LockWithCtx} inside a synctest bubble; every kvs.Storage call of the lock code is a gate, the scheduler picks one enabled action per step (release a gate normally / as 'request lost' / as 'reply lost' with up to 2 faults, cancel an attempt before or during the call, leave a critical section, expire an ownerless record) - random and PCT schedules plus exhaustive DFS of 27 two-worker configurations with <=1 fault; monitor: number of callers between acquisition return and Unlock call never exceeds 1. take-over: on the real clock with a 300/400 ms lease (hook) a caller waits 1.25-2 leases behind a holder, takes over and holds for 3 leases against a TryLock-spinning third Locker (canary-guarded); stale renewal: the answer of the previous holder's n-th renewal arrives after it unlocked and another caller acquired. unlock vs failed renewal: A's renewal is answered with an error (request lost) while A is unlocking, then B acquires and a third Locker spins. A's Unlock loses its Delete (reply or request), B acquires, A tries the same Locker again. tenures during which the holder's provider is shut down or single renewal requests (1st..7th, pairs, triples) are lost, against a spinning Locker. an ownerless record expiring under 2-5 parked Lockers (holder count, logical); re-lock of the same Locker while a renewal answer of the previous tenure is on its way. acquisition through LockWithCtx / TryLock with a context cancelled right after (context-honouring storage), 2.5 leases against a spinning Locker. two locks taken together in one process, the storage of one answering its renewal after 0.75 leases: the other must be kept (own processes). far timers (own processes): a short-lease tenure taken while a lock of another name with a 30 s lease and a foreign timer 20 s ahead are pending in the process. slow storage (own processes): the holder's storage answers every renewal slowly but inside half a lease (a caller whose context ends meanwhile gets the context's error), 4 leases against a spinning Locker. hand-off storm (own process): goroutines sharing one Locker hand the lock over 150 000 (3 000 000) times; a holder found without a pending lease timer right after a hand-off (hook), or the last one, keeps the lock for two leases against another provider's Locker. free-running (also repeated by a second pass built without the race detector): same monitor under real scheduling with the race detector on inmem and Redis(miniredis). distinct = distinct (configuration, action trace) pairs executed in the controlled part")
+	run.Rule("controlled: scenarios of 2-5 workers (distinct Lockers of 1-3 providers and goroutines sharing a Locker) running programs over {Lock, TryLock, LockWithCtx} inside a synctest bubble; every kvs.Storage call of the lock code is a gate, the scheduler picks one enabled action per step (release a gate normally / as 'request lost' / as 'reply lost' with up to 2 faults, cancel an attempt before or during the call, leave a critical section, expire an ownerless record) - random and PCT schedules plus exhaustive DFS of 27 two-worker configurations with <=1 fault; monitor: number of callers between acquisition return and Unlock call never exceeds 1. take-over: on the real clock with a 300/400 ms lease (hook) a caller waits 1.25-2 leases behind a holder, takes over and holds for 3 leases against a TryLock-spinning third Locker (canary-guarded); stale renewal: the answer of the previous holder's n-th renewal arrives after it unlocked and another caller acquired. unlock vs failed renewal: A's renewal is answered with an error (request lost) while A is unlocking, then B acquires and a third Locker spins. A's Unlock loses its Delete (reply or request), B acquires, A tries the same Locker again. tenures during which the holder's provider is shut down or single renewal requests (1st..7th, pairs, triples) are lost, against a spinning Locker. an ownerless record expiring under 2-5 parked Lockers (holder count, logical); re-lock of the same Locker while a renewal answer of the previous tenure is on its way, and shortly after it arrived. acquisition through LockWithCtx / TryLock with a context cancelled right after (context-honouring storage), 2.5 leases against a spinning Locker. two locks taken together in one process, the storage of one answering its renewal after 0.75 leases: the other must be kept (own processes). far timers (own processes): a short-lease tenure taken while a lock of another name with a 30 s lease and a foreign timer 20 s ahead are pending in the process. slow storage (own processes): the holder's storage answers every renewal slowly but inside half a lease (a caller whose context ends meanwhile gets the context's error), 4 leases against a spinning Locker. hand-off storm (own process): goroutines sharing one Locker hand the lock over 150 000 (3 000 000) times; a holder found without a pending lease timer right after a hand-off (hook), or the last one, keeps the lock for two leases against another provider's Locker. free-running (also repeated by a second pass built without the race detector): same monitor under real scheduling with the race detector on inmem and Redis(miniredis). distinct = distinct (configuration, action trace) pairs executed in the controlled part")
 	run.Assume("controlled part: frozen virtual time, so leases never expire under a live holder (the property's premise); storage operations are atomic steps there - their internal atomicity is what the free-running part and C02 look at")
 	run.Assume("an ownerless lock record (left by an injected lost reply / lost Delete) disappears only through the explicit 'expire' action, which models lease expiry")
 
@@ -657,7 +657,7 @@ func TestCheck(t *testing.T) {
 			}(i)
 		}
 		// an ownerless record expires under several parked Lockers; re-lock while a renewal answer is on its way
-		for i := 0; i < run.Pick(6, 16); i++ {
+		for i := 0; i < run.Pick(12, 24); i++ {
 			twg.Add(1)
 			go func(i int) {
 				defer twg.Done()
@@ -665,7 +665,10 @@ func TestCheck(t *testing.T) {
 				for attempt := 1; ; attempt++ {
 					var o locktap.Outcome
 					mode := fmt.Sprint("orphan-expiry-with-waiters/", 2+i%4)
-					if i%3 == 2 {
+					if i%3 == 2 && i%2 == 0 {
+						mode = fmt.Sprint("relock-after-late-renewal-answer/", 1+i%4/2)
+						o = locktap.RelockAfterLateRenewalAnswer(L, 1+i%4/2, []time.Duration{L / 20, L / 5}[i%4/2])
+					} else if i%3 == 2 {
 						mode = fmt.Sprint("relock-during-slow-renewal/", 1+i%2)
 						o = locktap.RelockDuringSlowRenewal(L, 1+i%2)
 					} else {
